@@ -18,7 +18,6 @@ use lightmotif::abc::Protein;
 use lightmotif::abc::Symbol;
 use lightmotif::dense::DenseMatrix;
 use lightmotif::num::StrictlyPositive;
-use lightmotif::num::Unsigned;
 use lightmotif::num::{U1, U16, U2, U32, U4};
 use lightmotif::pli::verif;
 use lightmotif::pli::Pipeline;
